@@ -130,19 +130,33 @@ def unit_hostile_data():
                     for pos in range(0, len(data), step): yield (fmt, "flip", pos)
                     yield (fmt, "garbage", 0); yield (fmt, "undecodable", 0)
                     if fmt in ("ods", "excel"): yield (fmt, "zipdir", 0x1000); yield (fmt, "zipdir", -7); yield (fmt, "zipdir", 0x7fffffff)
-            k = [0]
+                    if fmt == "ods":        # absurd repeat counts on a cell (recorded finding K-6b)
+                        for count in (10**15, 99999999999999999999): yield (fmt, "repeat", count)
+            k = [0]; known6b = findings.is_known("K-6b", "C10"); k6b = []
             def ccheck(c):
                 fmt, kind, pos = c; data = good[fmt]
                 def zipdir(delta):        # the 'offset of the central directory' field of the zip end record moved: the archive is there and readable, its directory is not where it says
                     import struct
                     i = data.rfind(b"PK\x05\x06"); off = struct.unpack("<I", data[i + 16:i + 20])[0]
                     return data[:i + 16] + struct.pack("<I", (off + delta) & 0xffffffff) + data[i + 20:]
-                blob = zipdir(pos) if kind == "zipdir" else {"truncate": data[:pos], "flip": data[:pos] + bytes([data[pos] ^ 0xFF]) + data[pos + 1:] if data else b"", "garbage": b"\x00\xff\xfe" * 7, "undecodable": data[:3] + b"\xff\xfe" + data[3:]}.get(kind)
+                def repeated(count):
+                    import zipfile
+                    src = zipfile.ZipFile(io.BytesIO(data)); out = io.BytesIO()
+                    with zipfile.ZipFile(out, "w") as z:
+                        for info in src.infolist():
+                            blob_ = src.read(info.filename)
+                            if info.filename == "content.xml": blob_ = blob_.replace(b"<table:table-cell", b'<table:table-cell table:number-columns-repeated="%d"' % count, 1)
+                            z.writestr(info, blob_)
+                    return out.getvalue()
+                blob = repeated(pos) if kind == "repeat" else zipdir(pos) if kind == "zipdir" else {"truncate": data[:pos], "flip": data[:pos] + bytes([data[pos] ^ 0xFF]) + data[pos + 1:] if data else b"", "garbage": b"\x00\xff\xfe" * 7, "undecodable": data[:3] + b"\xff\xfe" + data[3:]}.get(kind)
                 k[0] += 1; path = wfile("c%d.%s" % (k[0], ext[fmt]), blob)
                 cid = interface.Cid(cid_paths[fmt])
                 try:
                     for _ in validio.rows(cid, path, on_error="continue"): pass
                 except errors.DataError: pass
+                except (MemoryError, OverflowError) as e:
+                    if kind == "repeat" and known6b: k6b.append((c, type(e).__name__)); os.unlink(path); return None
+                    return {"expected": "rows or a DataError for a damaged %s container" % fmt, "observed": "%s: %s" % (type(e).__name__, str(e)[:100])}
                 except Exception as e: return {"expected": "rows or a DataError for a damaged %s container" % fmt, "observed": "%s: %s" % (type(e).__name__, str(e)[:100])}
                 with contextlib.redirect_stderr(io.StringIO()):
                     rc = applications.main(["cutplace", cid_paths[fmt], path])
@@ -151,6 +165,9 @@ def unit_hostile_data():
             res.append(sweep("C10/hostile/containers truncated and bit-flipped: API raises only DataError, command line never answers 4", ccases(), ccheck, "bounded",
                              "delimited / fixed / ods / xlsx data files truncated and with one byte flipped at ~40 offsets each (200 in thorough), garbage bytes, undecodable bytes, zip archives whose central directory offset is wrong; through validio.rows and applications.main",
                              describe=lambda c: {"format": c[0], "fault": c[1], "offset": c[2]}, function="validio.rows / applications.main", unit="C10.hostile.data", props=["C10", "C06"]))
+            if k6b:
+                res.append(Result("C10/K-6b witness: an absurdly large repeat count on an ODS cell ends in %s" % " / ".join(sorted({x[1] for x in k6b})), "bounded", FAILED, "native", finding="K-6b", cases=len(k6b), props=["C10"],
+                                  detail=repr(k6b[0]), replay={"verdict": "confirmed", "input": {"format": "ods", "table:number-columns-repeated": k6b[0][0][2]}, "expected": "DataFormatError", "observed": k6b[0][1]}))
             # the Encoding cell of a CID against a data file read by path: names that Python knows as codecs but that are no text encodings,
             # unknown names, and encodings the data is not written in
             def ecases():
